@@ -202,12 +202,13 @@ func gsapOutOfWindowNeighbours(cc PCfg, b blockRec) bool {
 // genRunHistory: stream = prefix . c^R . suffix, delivered so that blocks of at
 // least 32 bytes fall inside the run (at its start, middle and end, after a
 // Shrink, after a refill). Flags 0.
-func genRunHistory(t *rapid.T, x *parserExec) { genRunHistoryOpt(t, x, 0) }
+func genRunHistory(t *rapid.T, x *parserExec) { genRunHistoryOpt(t, x, 0, 0) }
 
 // noiseBlocks > 0: the prefix is noiseBlocks whole blocks of bytes that hardly
 // repeat (more than a thousand positions without a match), everything is
 // written at once, so the run begins exactly at a block start.
-func genRunHistoryOpt(t *rapid.T, x *parserExec, noiseBlocks int) {
+// longRun > 0: the run has that many bytes (tens of thousands).
+func genRunHistoryOpt(t *rapid.T, x *parserExec, noiseBlocks, longRun int) {
 	cc := x.cc
 	var c byte
 	switch weighted(t, "cKind", 3, 2, 3) {
@@ -260,6 +261,9 @@ func genRunHistoryOpt(t *rapid.T, x *parserExec, noiseBlocks int) {
 	}
 	suffix := mk("suffix", genSize(t, "suffixLen", 40, 0, 1))
 	r := 32 + genSize(t, "runLen", 600, 0, 1, 32, 33, 64)
+	if longRun > 0 {
+		r = longRun
+	}
 	stream := append([]byte{}, prefix...)
 	for i := 0; i < r; i++ {
 		stream = append(stream, c)
@@ -362,6 +366,19 @@ func TestC19Runs(t *testing.T) {
 					}
 					noiseBlocks = (1100+cfg.BlockSize-1)/cfg.BlockSize + rapid.IntRange(0, 2).Draw(t, "noiseMore")
 				}
+				longRun := 0
+				if noiseBlocks == 0 && rapid.IntRange(0, 11).Draw(t, "longRun") == 0 {
+					// a run of tens of thousands of bytes in a buffer that
+					// holds it, small blocks: the blocks at its very end
+					longRun = 16384 + rapid.IntRange(200, 3000).Draw(t, "longRunOver")
+					cfg.BufferSize = 24000
+					cfg.WindowSize = rapid.SampledFrom([]int{0, 24000, 20000}).Draw(t, "longRunWindow")
+					if cfg.WindowSize == 0 {
+						cfg.WindowSize = 24000
+					}
+					cfg.ShrinkSize = 0
+					cfg.BlockSize = rapid.SampledFrom([]int{64, 100, 128, 136, 272, 33}).Draw(t, "longRunBlock")
+				}
 				x, err := newParserExec(cfg)
 				if err != nil {
 					st.class("config-rejected:" + kind)
@@ -370,7 +387,7 @@ func TestC19Runs(t *testing.T) {
 				x.keepBlocks = true
 				beginCase("C19", "runs-"+kind, func() any { return x.Case() })
 				defer endCase() // also when rapid abandons the case half-way (fuzzing: input used up)
-				genRunHistoryOpt(t, x, noiseBlocks)
+				genRunHistoryOpt(t, x, noiseBlocks, longRun)
 				if !x.dead {
 					checkRunBlocks(x)
 				}
